@@ -523,6 +523,8 @@ def case(draw, fam=None, kind=None):
         c["xf"]["ikeys"] = draw(keys_list())
     elif fam == "R":
         c["xf"]["dups"] = draw(st.lists(st.tuples(st.integers(0, 40), st.integers(0, 40)).map(list), min_size=1, max_size=3))
+    elif fam == "S":
+        c["xf"]["sopt"] = draw(st.lists(st.integers(0, 1), min_size=12, max_size=12))
     elif fam == "M":
         nsrc = len(m["src"])
         c["xf"]["parts"] = [draw(st.lists(st.integers(1, 9), min_size=1, max_size=3)) for _ in range(nsrc)]
@@ -616,6 +618,23 @@ def _spread_block(db, sols, specs, view, numbers, ks):
             if t:
                 sub[c["el"]] = " ".join(t)
         rows.append(row)
+    # The identifiers of the block (-pH, -pe, -temp, -water) are a third, equivalent writing of what a column or a SOLUTION
+    # option says: "will be used for all subsequent solutions in the data block if no column has the heading ... or if the
+    # entry for the column is empty".  Per option: column (0) or block-level value of the first row, with a column only
+    # when another row differs (cells equal to the block value left empty).
+    so = view.get("sopt")
+    if so:
+        for j, h in enumerate(["pH", "pe", "temp", "water"]):
+            if so[(ks[0] * 4 + j) % len(so)] % 2 == 0 or (h == "pH" and "pH" in sub):
+                continue
+            v0 = rows[0][h]
+            opts.append(" -%s %s" % (h, v0))
+            if all(r[h] == v0 for r in rows):
+                heads.remove(h)
+            else:
+                for r in rows:
+                    if r[h] == v0:
+                        r[h] = ""
     allh = heads + cols
     lines = ["\t".join(allh)]
     if sub:
